@@ -243,7 +243,11 @@ def opWr (rest : String) : Option String :=
       let tb := match p.toBytes with
         | some b => hexOf b
         | none => "err"
-      some s!"ret={ret} pre={b01 prefixOk} app={app} tb={tb} ref=1"
+      let after := match (Payload.int 1 7).writeTo out with
+        | .ok (1, w2) => if w2 = out ++ [7] then "ok" else "odd"
+        | .ok _ => "odd"
+        | .error w2 => if w2 = out then "err" else "odd"
+      some s!"ret={ret} pre={b01 prefixOk} app={app} tb={tb} ref=1 after={after}"
     | _, _ => none
 
 /-- C13: parse, then rebuild from the parts through the model's views and builder. -/
